@@ -6,6 +6,8 @@
 //	dbt uniq  <dir> <seed>   writes close to uniqueness violations (C07)
 //	dbt oplog <dir> <seed>   multi-document writes with document-dependent change events, no-ops, drops (C08)
 //	dbt clean <dir> <seed>   the real Transaction.Clean on crafted change logs: every configuration of the retention grid (C08)
+//	dbt reload <dir> <seed> <histories> <calls>  histories on a FileStore with close/reopen points + typed-pool fidelity scenario (C06)
+//	dbt ttl   <dir> <seed>   TTL expiry passes (Transaction.Expire and the background loop) over typed value pools (C19)
 //	dbt index <dir> <seed>   every write path next to partial / multikey / compound indexes (C15)
 package main
 
@@ -72,6 +74,46 @@ func main() {
 		dbt.RunScenarios(dbt.OplogScenarios(), mk, flush)
 	case "index":
 		dbt.RunScenarios(dbt.IndexScenarios(), mk, flush)
+	case "reload":
+		// random histories on a file store with reopen points, then the typed-pool fidelity scenario
+		nh, _ := strconv.Atoi(os.Args[4])
+		nc, _ := strconv.Atoi(os.Args[5])
+		tmp, err := os.MkdirTemp("", "dbt-reload-")
+		if err != nil {
+			util.Die("tmp: %v", err)
+		}
+		defer os.RemoveAll(tmp)
+		base := mk()
+		base.Close()
+		for h := 0; h <= nh; h++ {
+			e := dbt.OpenFile(base, tmp, h)
+			e.Hist = h
+			hists++
+			if h == nh {
+				dbt.FidelityScenario(e)
+			} else {
+				for i := 0; i < nc; i++ {
+					if g.P(12) {
+						e.Reopen()
+					} else {
+						e.Do(e.RandomCall())
+					}
+				}
+				e.Reopen()
+			}
+			flush(e)
+			e.Close()
+		}
+		er := dbt.RetainReload(base, tmp)
+		hists++
+		flush(er)
+		er.Close()
+	case "ttl":
+		dbt.TTLScenarios(mk, flush)
+		e := mk()
+		dbt.BackgroundExpiry(e, nil)
+		flush(e)
+		e.Close()
 	case "clean":
 		hists = dbt.CleanGrid(trace)
 		hists += dbt.Retain(trace)
